@@ -261,6 +261,29 @@ func init() {
 		}
 		return out
 	}
+	// Split (and anything else the class stub does not cover): the host's regexp on concrete input
+	externals["(*regexp.Regexp).Split"] = func(fr *frame, a []value) value {
+		i := fr.i
+		p := a[0].(*value)
+		nre := i.nativeRegexps[p]
+		if nre == nil {
+			if c := i.regexps[p]; c != nil {
+				nre = regexp.MustCompile(c.src)
+			}
+		}
+		if nre == nil {
+			i.abort(abortUnsupported, "regexp value not created by MustCompile stub")
+		}
+		src, ok := concreteString(a[1])
+		if !ok {
+			i.abortAt(fr, abortUnsupported, "symbolic input to (*Regexp).Split")
+		}
+		var out []value
+		for _, part := range nre.Split(src, int(asInt64(a[2]))) {
+			out = append(out, part)
+		}
+		return out
+	}
 	externals["(*regexp.Regexp).MatchString"] = func(fr *frame, a []value) value {
 		i := fr.i
 		c := i.regexps[a[0].(*value)]
